@@ -64,6 +64,7 @@ def series_greenhouse(M, case, V):
     rs = [V("ratio_year%d" % i, 1e-6 if case["regime"] != "above_one" else 1.000001, 1 if case["regime"] != "above_one" else 3) for i in range(1, 11)] if sym == "ratios" \
         else [0.9, 0.6, 0.45, 0.5, 0.6, 0.7, 0.8, 0.9, 0.95, 1.0]
     c = S.crop_constants(NM, base, rs, case["rotation"], exponent=0.8, add_gh=True, gh_delay=case["delay"], dist=case.get("dist", 5.0), retail=case.get("retail", 10.0))
+    c_before = _snap_inputs(c)
     o = M.oc.OutdoorCrops(c)
     o.calculate_rotation_ratios(c)
     o.calculate_monthly_production(c)
@@ -84,7 +85,7 @@ def series_greenhouse(M, case, V):
         want = annual / 12 * eff * frac * waste * (1 + c["GREENHOUSE_GAIN_PCT"] / 100)
         out.append(("greenhouse crops = annual/12 x ratio x cropland share x (1-waste) x (1+gain)", "eq", gk[m], want))
         out.append(("greenhouse crops non-negative", "ge0", gk[m], 0))
-    return out
+    return _with_frame(c, c_before, out)
 
 
 def series_fish(M, case, V):
@@ -94,9 +95,18 @@ def series_fish(M, case, V):
     c = dict(NMONTHS=NM, ADD_FISH=case.get("add", True), WASTE_DISTRIBUTION={"SEAFOOD": case.get("dist", 7.0)}, WASTE_RETAIL=case.get("retail", 12.0),
              FISH_DRY_CALORIC_ANNUAL=annual, FISH_PROTEIN_TONS_ANNUAL=annual * 3.0, FISH_FAT_TONS_ANNUAL=annual * 2.0)
     s = M.sf.Seafood(c)
-    s.set_seafood_production({"FISH_PERCENT_MONTHLY": np.array(pct_long, dtype=object) if case["sym"] == "percent" else np.array(pct_long)})
+    handed = {"FISH_PERCENT_MONTHLY": np.array(pct_long, dtype=object) if case["sym"] == "percent" else np.array(pct_long, dtype=float)}
+    before = list(handed["FISH_PERCENT_MONTHLY"])
+    s.set_seafood_production(handed)
     k = s.to_humans.kcals
     out = [("fish: one value per month", "true", len(k) == NM and len(s.to_humans.fat) == NM and len(s.to_humans.protein) == NM, True)]
+    # the series is a function of its inputs: the inputs are left as they were, and computing it again from the same objects gives the same series
+    after = list(handed["FISH_PERCENT_MONTHLY"])
+    out.append(("fish: the monthly percentages handed in are not modified", "true", len(after) == len(before) and all((a is b) or bool(a == b) for a, b in zip(after, before)), True))
+    s2 = M.sf.Seafood(c)
+    s2.set_seafood_production(handed)
+    for m in range(NM):
+        out.append(("fish: a second computation from the same inputs gives the same series", "eq", s2.to_humans.kcals[m], k[m]))
     w = (1 - c["WASTE_DISTRIBUTION"]["SEAFOOD"] / 100) * (1 - c["WASTE_RETAIL"] / 100)
     for m in range(NM):
         want = annual * S.BILLION_KCALS_PER_TON / 12 * pct_long[m] / 100 * w if case.get("add", True) else 0
@@ -115,6 +125,7 @@ def series_grass(M, case, V):
              INITIAL_MILK_CATTLE=1.0, INIT_SMALL_ANIMALS=1.0, INIT_MEDIUM_ANIMALS=1.0, INIT_LARGE_ANIMALS_WITH_MILK_COWS=2.0, WASTE_DISTRIBUTION={"MEAT": 4.0, "MILK": 3.0}, WASTE_RETAIL=10.0)
     for i, r in enumerate(rs, 1):
         c["RATIO_GRASSES_YEAR%d" % i] = r
+    c_before = _snap_inputs(c)
     md = M.md.MeatAndDairy(c)
     g = md.human_inedible_feed
     out = [("grass: one value per month", "true", len(g.kcals) == NM, True), ("grass units", "true", list(g.units) == ["billion kcals each month", "thousand tons each month", "thousand tons each month"], True)]
@@ -124,7 +135,7 @@ def series_grass(M, case, V):
         want = base * rs[yr - 1] * 1e6 * S.BILLION_KCALS_PER_TON      # million dry caloric tons -> billion kcals
         out.append(("grass = monthly baseline x ratio of the model year (year 1 = May-December)", "eq", g.kcals[m], want))
         out.append(("grass non-negative", "ge0", g.kcals[m], 0))
-    return out
+    return _with_frame(c, c_before, out)
 
 
 def series_feed_biofuel(M, case, V):
@@ -133,6 +144,7 @@ def series_feed_biofuel(M, case, V):
     ff, bp = V("feed_fat_annual", 0, 1e9), V("biofuel_protein_annual", 0, 1e9)
     c = dict(NMONTHS=NM, BIOFUEL_KCALS=bk, BIOFUEL_FAT=5.0, BIOFUEL_PROTEIN=bp, FEED_KCALS=fk, FEED_FAT=ff, FEED_PROTEIN=7.0,
              DELAY=dict(BIOFUEL_SHUTOFF_MONTHS=case["bio"], FEED_SHUTOFF_MONTHS=case["feed"]))
+    c_before = _snap_inputs(c)
     f = M.fb.FeedAndBiofuels(c)
     bio, feed = f.get_biofuels_and_feed_from_delayed_shutoff(c)
     out = [("feed/biofuel demand: one value per month", "true", len(feed.kcals) == NM and len(bio.kcals) == NM and len(feed.fat) == NM and len(bio.protein) == NM, True)]
@@ -143,7 +155,7 @@ def series_feed_biofuel(M, case, V):
         out.append(("biofuel protein demand", "eq", bio.protein[m], bp / 12 / 1e3 if m < case["bio"] else 0))
         out.append(("feed demand non-negative", "ge0", feed.kcals[m], 0))
         out.append(("biofuel demand non-negative", "ge0", bio.kcals[m], 0))
-    return out
+    return _with_frame(c, c_before, out)
 
 
 SCP_RAMP = [0] * 12 + [2] * 5 + [4] + [7] * 5 + [9] + [11] * 6 + [13] + [15] * 1000     # percent of global needs, months after the start-up delay (Garcia Martinez et al.)
@@ -162,6 +174,7 @@ def series_scp(M, case, V):
     gpop, frac, slope = _industrial(case, V)
     c = dict(NMONTHS=NM, INDUSTRIAL_FOODS_SLOPE_MULTIPLIER=slope, POP=POP, GLOBAL_POP=gpop, WASTE_DISTRIBUTION={"SUGAR": case.get("dist", 6.0)}, WASTE_RETAIL=10.0,
              ADD_METHANE_SCP=case.get("add", True), DELAY=dict(INDUSTRIAL_FOODS_MONTHS=d), SCP_GLOBAL_PRODUCTION_FRACTION=frac)
+    c_before = _snap_inputs(c)
     s = M.scp.MethaneSCP(c)
     s.calculate_monthly_scp_caloric_production(c)
     s.calculate_scp_fat_and_protein_production()
@@ -175,7 +188,7 @@ def series_scp(M, case, V):
         out.append(("SCP non-negative", "ge0", k[m], 0))
         if m:
             out.append(("SCP ramps monotonically", "le", k[m - 1], k[m]))
-    return out
+    return _with_frame(c, c_before, out)
 
 
 def series_cs(M, case, V):
@@ -183,6 +196,7 @@ def series_cs(M, case, V):
     gpop, frac, slope = _industrial(case, V)
     c = dict(NMONTHS=NM, INDUSTRIAL_FOODS_SLOPE_MULTIPLIER=slope, POP=POP, GLOBAL_POP=gpop, WASTE_DISTRIBUTION={"SUGAR": case.get("dist", 6.0)}, WASTE_RETAIL=10.0,
              ADD_CELLULOSIC_SUGAR=case.get("add", True), DELAY=dict(INDUSTRIAL_FOODS_MONTHS=d), CS_GLOBAL_PRODUCTION_FRACTION=frac)
+    c_before = _snap_inputs(c)
     s = M.cs.CellulosicSugar(c)
     s.calculate_monthly_cs_production(c)
     k = s.production.kcals
@@ -195,7 +209,7 @@ def series_cs(M, case, V):
         out.append(("cellulosic sugar non-negative", "ge0", k[m], 0))
         if m:
             out.append(("cellulosic sugar ramps monotonically", "le", k[m - 1], k[m]))
-    return out
+    return _with_frame(c, c_before, out)
 
 
 def series_seaweed(M, case, V):
@@ -205,6 +219,7 @@ def series_seaweed(M, case, V):
     c = dict(NMONTHS=NM, SEAWEED_MAX_AREA_FRACTION=maxf, ADD_SEAWEED=case.get("add", True), MAX_SEAWEED_AS_PERCENT_KCALS_HUMANS=10, MAX_SEAWEED_AS_PERCENT_KCALS_FEED=10,
              MAX_SEAWEED_AS_PERCENT_KCALS_BIOFUEL=10, INITIAL_SEAWEED_FRACTION=0.01, SEAWEED_NEW_AREA_FRACTION=newf, WASTE_DISTRIBUTION={"SEAWEED": 8.0}, WASTE_RETAIL=10.0,
              DELAY=dict(SEAWEED_MONTHS=d), SEAWEED_GROWTH_PER_DAY={str(i): (V("growth_per_day_%d" % i, 0, 30) if case["sym"] == "growth" else 5.0 + 0.1 * i) for i in range(NM)})
+    c_before = _snap_inputs(c)
     s = M.sw.Seaweed(c)
     area = s.get_built_area(c)
     out = [("seaweed farm area: one value per month", "true", len(area) == NM, True)]
@@ -228,7 +243,25 @@ def series_seaweed(M, case, V):
             daily = c["SEAWEED_GROWTH_PER_DAY"][str(m)]
             out.append(("seaweed growth factor of month m = 100 x (1 + daily percent/100)^30 of month m's column", "eq", g[m], 100 * ((daily / 100 + 1) ** 30)))
             out.append(("seaweed growth factor non-negative", "ge0", g[m], 0))
-    return out
+    return _with_frame(c, c_before, out)
+
+
+
+def _snap_inputs(c):
+    """detached copy of the constants handed to a supply class (symbolic leaves kept as they are)"""
+    from harness.history import snapshot
+    return snapshot(c)
+
+
+def _with_frame(c, before, rows):
+    """adds the frame condition: the supply classes read their inputs, they do not rewrite them"""
+    from harness.history import snapshot, compare
+    diffs = {}
+    compare(None, before, snapshot(c), "inputs", diffs)
+    where = diffs.pop("__where__", [])
+    from symx.engine import SymBool
+    ok = all((bool(x) if not isinstance(x, SymBool) else True) for conds in diffs.values() for x in conds) and not where
+    return list(rows) + [("the constants handed in are not modified by the computation", "true", ok, True)]
 
 
 MONTHS = ["JAN", "FEB", "MAR", "APR", "MAY", "JUN", "JUL", "AUG", "SEP", "OCT", "NOV", "DEC"]
@@ -238,6 +271,7 @@ def series_stored(M, case, V):
     symm = case["sym_months"]
     stocks = {mn: (V("stock_end_%s" % mn, 0, 1e9) if mn in symm else 500.0 + 37.0 * i) for i, mn in enumerate(MONTHS)}
     c = dict(END_OF_MONTH_STOCKS=stocks, RATIO_STOCKS_UNTOUCHED=case["untouched"], PERCENT_STORED_FOOD_TO_USE=case["percent"], WASTE_DISTRIBUTION={"CROPS": case.get("dist", 5.0)})
+    c_before = _snap_inputs(c)
     oc = types.SimpleNamespace(OG_FRACTION_FAT=0.01, OG_FRACTION_PROTEIN=0.02)
     s = M.st.StoredFood(c, oc)
     s.calculate_stored_food_to_use(case.get("start", S.START_MONTH))
@@ -249,10 +283,10 @@ def series_stored(M, case, V):
         lo = v if (v < lo) else lo
     want = (stocks[prev] * case["percent"] / 100 - lo * case["untouched"]) * S.BILLION_KCALS_PER_TON * (1 - c["WASTE_DISTRIBUTION"]["CROPS"] / 100)
     k = s.initial_available.kcals
-    return [("initial stored food = previous month's end stock x share used - untouched share of the annual minimum, x (1 - waste)", "eq", k, want),
+    return _with_frame(c, c_before, [("initial stored food = previous month's end stock x share used - untouched share of the annual minimum, x (1 - waste)", "eq", k, want),
             ("initial stored food non-negative", "ge0", k, 0),
             ("initial stored food is a single total in billion kcals", "true", list(s.initial_available.units) == ["billion kcals", "thousand tons", "thousand tons"], True),
-            ("stored food fat = kcals x fat fraction", "eq", s.initial_available.fat, want * 0.01)]
+            ("stored food fat = kcals x fat fraction", "eq", s.initial_available.fat, want * 0.01)])
 
 
 def series_year1(M, case, V):
